@@ -3,6 +3,7 @@ import Driver.Tracker
 import Driver.Params
 import Driver.Recovery
 import Driver.Receiver
+import Driver.Config
 /-!
 fbdriver: reads `<id>\t<input>\t<impl observation>` lines on stdin, runs the model of the chosen
 component on `<input>` and prints one verdict line per case:
@@ -21,6 +22,7 @@ def dispatch (comp : String) : Option (String → String → Verdict) :=
   | "params" => some Params.check
   | "recovery" => some Recovery.check
   | "receiver" => some Receiver.check
+  | "config" => some Config.check
   | _ => none
 
 partial def loop (h : IO.FS.Stream) (out : IO.FS.Stream) (f : String → String → Verdict) : IO Unit := do
